@@ -27,16 +27,25 @@ static const char* ef_classify(void* addr, char* detail, size_t n)
         }
     return 0;
 }
+#if defined(__has_feature)
+#if __has_feature(thread_sanitizer)
+#define VERIF_TSAN_AUDIT 1
+#endif
+#endif
 void* __wrap_realloc(void* old, size_t n)
 {
+#ifdef VERIF_TSAN_AUDIT
+    return __real_realloc(old, n);
+#endif
     if (!vs_param("efence", 1) || NEF >= 256) return __real_realloc(old, n);
     int oi = old ? ef_find(old) : -1;
     if (old && oi < 0) return __real_realloc(old, n);
-    size_t pages = (n + 4095) / 4096 + 1;
+    size_t pages = (n + 32 + 4095) / 4096 + 1; // room for the 32-byte rounding and the optional 16-byte misalignment
     char* base = mmap(0, pages * 4096, PROT_READ | PROT_WRITE, MAP_PRIVATE | MAP_ANONYMOUS, -1, 0);
     if (base == MAP_FAILED) return 0;
     mprotect(base + (pages - 1) * 4096, 4096, PROT_NONE);
     char* user = base + (pages - 1) * 4096 - ((n + 31) / 32) * 32; // keeps the 32-byte granularity the camera rounds sizes to
+    if (vs_param("misalign", 0)) user -= 16; // like malloc: 16-byte but not 32-byte aligned (aligned vector accesses fault); 16 bytes of slack at the end
     EF[NEF].base = base; EF[NEF].map = pages * 4096; EF[NEF].user = user; EF[NEF].n = n; EF[NEF].live = 1; ++NEF;
     if (oi >= 0) { memcpy(user, old, EF[oi].n < n ? EF[oi].n : n); EF[oi].live = 0; mprotect(EF[oi].base, EF[oi].map, PROT_NONE); }
     // the first bytes of every image buffer are watched: the first store of a render pass is a scheduling point, so the
@@ -97,6 +106,9 @@ static void cam_setup_common(void)
         vs_watch(&SC_->software_trigger.triggered, sizeof SC_->software_trigger.triggered, "cam.software_trigger.triggered");
         vs_watch(&SC_->im.frame_id, sizeof SC_->im.frame_id, "cam.im.frame_id");
         vs_watch(&CAM->state, sizeof CAM->state, "camera.state(HAL)");
+        // added after the ThreadSanitizer audit: the streamer reads these outside im.lock while simcam_set writes them
+        vs_watch(&SC_->im.render_data, sizeof SC_->im.render_data, "cam.im.render_data(pointer)");
+        vs_watch(&SC_->properties.binning, sizeof SC_->properties.binning, "cam.properties.binning");
     }
     vs_name(&SC_->im.lock, "cam.im.lock");
     vs_name(&SC_->im.frame_ready, "cam.im.frame_ready");
